@@ -143,7 +143,10 @@ def prepare_replay_crate(scratch):
         '[dependencies]\nlru-mem = { path = "%s" }\n\n[workspace]\n\n[profile.release]\ndebug-assertions = false\noverflow-checks = false\n' % crate
     )
     shutil.copy(VERIF / "lib" / "replay_main.rs", run / "src" / "main.rs")
-    shutil.copy(crate / "Cargo.lock", run / "Cargo.lock")
+    for cand in (crate / "Cargo.lock", Path("/repo/Cargo.lock")):
+        if cand.exists():
+            shutil.copy(cand, run / "Cargo.lock")
+            break
     (run / ".cargo").mkdir()
     (run / ".cargo" / "config.toml").write_text("[net]\noffline = true\n")
     return run
@@ -453,6 +456,31 @@ def native_replay(scratch, prop, harness_name, vals, profiles=("dev", "release")
     return outs
 
 
+def native_search(scratch, prop, harness_name, iters=400000):
+    """Fallback when the trace-producing CBMC run does not fit into memory: CBMC has already
+    decided that a counterexample exists; a boundary-biased pseudo-random search over the same
+    harness (native, real hashbrown) looks for a concrete witness. -> (vals, message) or None."""
+    run = prepare_replay_crate(scratch)
+    env = dict(os.environ)
+    env["RUSTFLAGS"] = "--cfg lru_mem_verif_replay --cfg %s -A warnings" % prop
+    env["CARGO_NET_OFFLINE"] = "true"
+    env["CARGO_TARGET_DIR"] = str(scratch / "replay-target")
+    env["VERIF_TAB"] = str(int(os.environ.get("VERIF_SEED", "0") or 0) % 15)
+    for seed in (1, 2, 3):
+        try:
+            p = subprocess.run(["cargo", "run", "-q", "--offline", "--", "--search", harness_name, str(iters), str(seed)], cwd=run, env=env, stdout=subprocess.PIPE, stderr=subprocess.STDOUT, text=True, timeout=600)
+        except subprocess.TimeoutExpired:
+            continue
+        out = p.stdout
+        w = re.search(r"SEARCH-WITNESS (\[.*\])", out)
+        m = re.search(r"VASSERT-FAILED (\[[A-Z0-9 ]+\].*)", out)
+        if w and m and prop in tags_of(m.group(1)):
+            return json.loads(w.group(1)), m.group(1)
+        if w and "SEARCH-PANIC" in out:
+            return json.loads(w.group(1)), "the operation panicked (native witness search)"
+    return None
+
+
 def miri_replay(scratch, prop, harness_name, vals):
     """Fallback for pointer-safety failures without a native symptom: the same
     replay under Miri (real hashbrown); Miri's 'Undefined Behavior' report confirms."""
@@ -675,6 +703,11 @@ def _check_property(prop, tier, seed, sel, scratch, t_start):
                 if ok:
                     reproduced = (vals, prof, what, rname)
                     break
+            if not reproduced and not tests:
+                log("  %s: no trace could be produced (memory); native witness search ..." % h.name)
+                found = native_search(scratch, prop, h.name)
+                if found:
+                    reproduced = (found[0], "dev", found[1] + " (witness found by the native search after CBMC reported the failure)", h.name)
             if reproduced:
                 (VERIF / "replays").mkdir(exist_ok=True)
                 path = VERIF / "replays" / ("%s-%s.json" % (prop, h.name))
